@@ -42,6 +42,13 @@ def check(pid, tier, seed, replay=None):
                 counts[a] = counts.get(a, 0) + 1
         for ri, k, e, sig in bads:
             v.violation("record %s is not what LevelGate demands" % json.dumps(e)[:300], {"property": pid, "op": e if e["a"] == "Entry" else {"a": "TextAll"}, "record": e})
+        if not replay:
+            # "Level text forms round-trip through ParseLevel/UnmarshalText": spec/aux/LevelNames.tla - every text of its alphabet
+            # parsed, all 256 levels written and read back, under three configurations of the level names
+            from checks import ext
+            ln_bads, ln_stats = ext.part(sc, tier, "X04")
+            for script, e in ln_bads:
+                v.violation("level text forms (%s): not what LevelNames.tla says" % e.get("conf"), {"property": pid, "kind": "levelnames", "op": {"a": "TextAll"}, "script": script, "record": {k: e[k] for k in ("a", "id", "conf", "nilerr")}})
         samples = [json.loads(ln) for _, rr in recs[:3] for ln in rr[1:2]]
         nil_methods = [json.loads(ln)["m"] for _, rr in recs for ln in rr[1:] if '"a":"Nil"' in ln]
         cov = {"states": max(2, (r.distinct if r else 1)), "transitions": max(1, (r.generated if r else 1)), "traces_validated_against_impl": sum(counts.values()),
